@@ -377,6 +377,8 @@ SlashRedLoop(s, keys, f, CapAtPosition) ==
               k == <<d, dst, a>>
           IN  IF ~ValExists(s, dst) THEN Fail("validator does not exist", s)
               ELSE IF CapAtPosition /\ k \notin DOMAIN s.dels THEN SlashRedLoop(Ensure(s, dst), Tail(keys), f, CapAtPosition)
+              \* fix F8: an asset that has been deleted since is looked up (and the entry skipped) before its rewards are claimed
+              ELSE IF a \notin DOMAIN s.assets THEN SlashRedLoop(Ensure(s, dst), Tail(keys), f, CapAtPosition)
               ELSE
                 LET rc == ClaimDel(Ensure(s, dst), d, dst, a)
                 IN  IF ~rc.ok THEN Fail(rc.err, Ensure(s, dst))
